@@ -114,6 +114,21 @@ def run(R):
         oor = [(bb2, t2) for bb2, t2 in b.calls(pat='Status::out_of_range')]
         R.check(not others and len(oor) == 1, 'C06.R1', 'single-limit-test', site(b, others[0]) if others else site(b, tb),
                 'the limit is compared once, with the announced length: other comparisons with the limit %d, Status::out_of_range sites %d' % (len(others), len(oor)))
+        # .. and the limit goes nowhere else: handed to the decompressor (Read::take(limit), a capped output buffer) it silently becomes a
+        # limit on the decompressed size - a message within the limit on the wire is cut off and fails to decode
+        leaks = []
+        for bb2, t2 in b.calls():
+            if t2.get('name') in ('out_of_range',) or 'fmt::' in (t2.get('fn') or '') or t2.get('mac') or bb2 in rej:
+                continue
+            for a2 in t2['args']:
+                o2 = b.origin(a2)
+                if term_contains(o2, lambda x: same_limit(x) and isinstance(strip_refs(x), tuple) and strip_refs(x)[:1] != ('const',)):
+                    leaks.append((bb2, t2))
+                    break
+        # the comparison itself and the resolution of the default are not "uses"
+        leaks = [(bb2, t2) for bb2, t2 in leaks if t2.get('name') not in ('unwrap_or', 'unwrap_or_else', 'unwrap_or_default', 'gt', 'lt', 'ge', 'le', 'cmp', 'partial_cmp', 'min', 'max')]
+        R.check(not leaks, 'C06.R1', 'limit-used-for-the-wire-length-only', site(b, leaks[0][0]) if leaks else site(b, tb),
+                'calls that receive the size limit besides the test and its error message: %r' % [short(t2.get('fn') or '?')[-50:] for bb2, t2 in leaks])
         R.floor('C06.R1', 'reserve sites', len(b.calls(name='reserve')), 1)
         # the test happens as soon as the prefix is read: get_u32 -> test with no body poll / yield in between (same function, straight line)
         gb, gt = b.call1(name='get_u32')
@@ -237,6 +252,14 @@ def run(R):
         for x, t, w_ in whole_buffer_takes(b):
             a = strip_refs(b.origin(t['args'][1])) if len(t['args']) > 1 else ('whole',)
             R.check(w_ and mentions_local_named(b, b.origin(t['args'][0]), encode_buf_field(tonic)), 'C06.R3', 'whole-buffer-yield', site(b, x), 'split_to(%s)' % show(a)[:60])
+
+        # the stashed OUT_OF_RANGE is only delivered if the body is polled again after the flushed frames: is_end_stream() must not say
+        # "done" from the source's end alone (hyper then ends the request after the last DATA frame and the oversized message is
+        # dropped silently) - it reports the flag that is set when the final outcome has been produced
+        ie = tonic.body(re.compile(r'codec::encode::EncodeBody<T, U> as http_body::Body>::is_end_stream$'))
+        R.saw(ie)
+        rt = mirlib.returned_terms(ie)
+        R.check(len(rt) == 1 and field_names(rt[0][1])[-1:] == ['is_end_stream'], 'C06.R3', 'is_end_stream()=final-outcome-flag', site(ie), 'returns %s' % (show(rt[0][1])[:80] if rt else None))
 
     # ---------------------------------------------------------------- R4 plumbing
     R.describe('C06.R4', 'limit plumbing: server/client configuration fields reach Streaming::new_request/new_response (decode) and map_response/EncodeBody (encode); encode and decode limits are not swapped')
